@@ -789,7 +789,9 @@ SCENARIOS = {
     "hand-nested": ("asis", [
         N1, Prod(N1, N1), CSE(Prod(X, Y)), Quot(N1, CSE(Prod(X, Y), "q")), Call(F, N1)]),
 }
-ENVS_B = ((2, 3), (3, 5), (Fraction(1, 2), Fraction(3, 2)))     # instance k gets ENVS_B[k % 3]
+# instance k gets ENVS_B[k % 4]; the first one makes the shared x + y evaluate to 0 (a falsy
+# cached value must still be a cache hit)
+ENVS_B = ((3, -3), (2, 3), (3, 5), (Fraction(1, 2), Fraction(3, 2)))
 KINDS_B = ("plain", "cached")
 
 
